@@ -390,9 +390,64 @@ def raii_only(ctx, rid, files, floor=20):
                        txt + " while an RAII guard of this function owns the same mutex (it is unlocked a second time when the guard dies)",
                        fn=f.label, inst=f.qname)
             else:
+                for ok_, site_, what_, detail_ in _flag_owner_hygiene(ctx, f, st, m):
+                    ctx.ob(rid, ok_, site_, what_, detail_, fn=f.label, inst=f.qname)
                 ctx.unknown("%s: %s: %s at %s hands lock ownership over outside RAII; whether every path releases the mutex "
                             "exactly once is not decided by this rule" % (rid, f.label, txt, f.loc(st)))
     return n
+
+
+def _flag_owner_hygiene(ctx, f, st, m):
+    """a member function unlocks a mutex by hand under a bool member ('if (m_locked) { m_locked = false; mtx.unlock(); }'):
+    its class owns the lock through that flag.  Whatever the rest of the protocol is, such a class must behave like the
+    RAII lock it replaces: its destructor releases, it cannot be copied, and a move hands the flag over (an implicit
+    or defaulted move COPIES a bool: both objects then unlock).  Yields (ok, site, statement, detail)."""
+    from .engine import describe_cond_arm
+    if m is None or not m.startswith("this.") or not f.rec:
+        return
+    recs = [r for r in ctx.fb.records() if r.qname == f.recq]
+    if not recs:
+        return
+    r = recs[0]
+    flag = None
+    for fl in r.fields:
+        if fl["type"] == "bool" and describe_cond_arm(f, st, "this." + fl["name"]) is True:
+            flag = fl["name"]
+    if flag is None:
+        return
+    site = "%s:%d" % (short(r.file), r.line)
+    what = "%s owns %s through the flag %s" % (r.name, m[5:], flag)
+    dt = [x for x in r.methods if x["kind"] == "dtor"]
+    user_dt = [x for x in dt if not x.get("implicit") and not x.get("defaulted")]
+    if not user_dt:
+        yield (False, site, what + ": its destructor releases the lock", "no user-provided destructor: an object destroyed while the "
+               "flag is set (a handle whose pointer was release()d, an exception between construction and hand-over) leaves the "
+               "mutex locked for ever")
+    else:
+        ok = False
+        for g in ctx.fb.functions(rec=f.rec):
+            if g.kind == "dtor" and g.recq == f.recq:
+                ok = any(t.startswith("raw unlock") and path(g, g.s(s_["obj"])) == m for s_, t in raw_mutex_ops(g))
+        yield (ok, site, what + ": its destructor releases the lock", "" if ok else "the destructor never unlocks " + m[5:])
+    cc = [x for x in r.methods if x.get("copy_ctor") and not x.get("deleted")]
+    yield (not cc, site, what + ": it cannot be copied", "" if not cc else "the %s copy constructor duplicates the flag: two objects "
+           "unlock the same acquisition" % ("implicit" if cc[0].get("implicit") else "declared"))
+    mv = [x for x in r.methods if x.get("move_ctor") and not x.get("deleted")]
+    for x in mv:
+        if x.get("implicit") or x.get("defaulted"):
+            yield (False, site, what + ": a move hands the flag over", "the %s move constructor copies the bool: the moved-from object "
+                   "still believes it owns the lock and unlocks it a second time (or while the new owner is still writing)"
+                   % ("implicit" if x.get("implicit") else "defaulted"))
+        else:
+            ok = False
+            for g in ctx.fb.functions(rec=f.rec):
+                if g.kind == "ctor" and g.recq == f.recq and g.id == x.get("id") and g.params:
+                    src = "p:%s.%s" % (g.params[0]["name"], flag)
+                    for s_ in g.stmts.values():
+                        if s_["k"] == "BinaryOperator" and s_.get("op") == "=" and path(g, g.children(s_)[0]) == src:
+                            v = unwrap(g, g.children(s_)[1])
+                            ok = v is not None and v["k"] == "CXXBoolLiteralExpr" and v["v"] is False
+            yield (ok, site, what + ": a move hands the flag over", "" if ok else "the move constructor does not clear the source's " + flag)
 
 
 # ---------------------------------------------------------------- lock order
